@@ -34,6 +34,10 @@ def main():
     a = sys.argv[1:]
     only = a[a.index("--only") + 1] if "--only" in a else None
     tier = a[a.index("--tier") + 1] if "--tier" in a else "quick"
+    seed = a[a.index("--seed") + 1] if "--seed" in a else None
+    no_control = "--no-control" in a
+    if seed:
+        os.environ["VERIF_SEED"] = seed
     items = []
     for f in sorted(glob.glob(os.path.join(VERIF, "planted", "*.diff"))):
         name = os.path.basename(f)[:-5]
@@ -51,13 +55,13 @@ def main():
             continue
         other = "C14" if it["property"] == "C03" else "C03"
         r = run_check(it["patch"], it["property"], tier)
-        c = run_check(it["patch"], other, "quick")
+        c = run_check(it["patch"], other, "quick") if not no_control else {"exit": -1, "wall_s": 0, "violations_reported": 0, "replays_reproduced": 0, "classes": []}
         ok = (r["exit"] == 1) == (it["expect"] == "detected") and r["exit"] in (0, 1)
         rows.append({**it, "result": r, "other_property_quick": c, "as_expected": ok})
         print("%-48s %s %-8s exit=%d viol=%d repro=%d %s | %s quick exit=%d  %s" % (
             it["id"], it["property"], it["expect"], r["exit"], r["violations_reported"], r["replays_reproduced"],
             ",".join(r["classes"]), other, c["exit"], "OK" if ok else "UNEXPECTED"), flush=True)
-    outp = os.path.join(VERIF, "sensitivity.json")
+    outp = os.path.join(VERIF, "sensitivity.json" if not seed or seed == "1" else "sensitivity_seed%s.json" % seed)
     if only and os.path.exists(outp):
         # partial run: merge into the existing table
         old = json.load(open(outp))["rows"]
